@@ -129,6 +129,10 @@ func (s *Service) Subscribe(ctx context.Context, ns libshare.Namespace) (<-chan 
 					log.Debugw("blobsub: canceling subscription due to user ctx closing", "namespace", ns.ID())
 					return
 				}
+				if s.ctx.Err() != nil {
+					log.Debugw("blobsub: canceling subscription due to service ctx closing", "namespace", ns.ID())
+					return
+				}
 				if !ok {
 					log.Errorw("header channel closed for subscription", "namespace", ns.ID())
 					return
@@ -146,6 +150,12 @@ func (s *Service) Subscribe(ctx context.Context, ns libshare.Namespace) (<-chan 
 					if ctx.Err() != nil {
 						// context canceled, continuing would lead to unexpected missed heights for the client
 						log.Debugw("blobsub: canceling subscription due to user ctx closing", "namespace", ns.ID())
+						return
+					}
+					if s.ctx.Err() != nil {
+						// the service is stopped: without this check a retrieval that keeps failing
+						// would be retried forever and the subscription would never be closed
+						log.Debugw("blobsub: canceling subscription due to service ctx closing", "namespace", ns.ID())
 						return
 					}
 					if err == nil {
